@@ -13,6 +13,9 @@ def run_kani_property(prop, tier, units, assumptions=(), samples=(), not_decided
     """units: list of kx unit names. method_check: dict(unit -> callable returning (missing_methods, extra_rows)).
     extra_steps(rep, cov) may add violations / coverage (e.g. a Verus unit that belongs to the same property)."""
     t0 = time.time()
+    # the quick tier must stay inside the 15-minute limit also when rows FAIL: one verifier counterexample (1-2.5 min) instead of three,
+    # the other violated rows get their concrete input from seeded execution (seconds)
+    kx.MAX_PLAYBACK = 1 if tier == 'quick' else 3
     rep = common.Report(prop)
     cov = dict(obligations=0, discharged=0, checker_cmd='', trusted_base=[], samples=list(samples), units=[],
                functions_under_contract=[], rows_held=0, rows_violated=0, rows_undecided=0,
